@@ -708,6 +708,12 @@ impl<'a, 'b> Gen<'a, 'b> {
         let e = self.expr(ret, d);
         if self.t.maybe(60) {
             body.push(Stmt::Return(e));
+            if self.t.maybe(48) {
+                // statements that are never reached: they are still compiled (names in them are still resolved)
+                let k = 1 + self.t.below(2);
+                let dead = self.stmts(k, d);
+                body.extend(dead);
+            }
         } else {
             body.push(es(e));
         }
@@ -1019,6 +1025,13 @@ impl<'a, 'b> Gen<'a, 'b> {
                     b.push(self.print_stmt(0));
                 }
                 b.push(s);
+                if self.t.maybe(40) {
+                    // never reached, still compiled
+                    self.cx().scopes.push(vec![]);
+                    let dead = self.stmts(1, d1);
+                    self.cx().scopes.pop();
+                    b.extend(dead);
+                }
                 vec![es(iff(c, b, None))]
             }
             _ => vec![],
